@@ -1232,8 +1232,7 @@ impl Iterator for FileIterator<'_> {
             return None;
         }
 
-        // @todo: probably safe to hand out a reference instead of cloning, just a bit more painful
-        let file_entry = self.file_entries[self.count].clone();
+        let position = self.count;
         self.count += 1;
 
         let reader = payload::Reader::new(&mut self.archive, &self.file_entries);
@@ -1243,6 +1242,37 @@ impl Iterator for FileIterator<'_> {
                 if entry_reader.is_trailer() {
                     return None;
                 }
+
+                // The archive may omit files listed in the header (%ghost) or order them
+                // differently, so pair the archive entry with the header entry it names
+                // rather than with the one at the same position.
+                let index = match entry_reader.entry() {
+                    payload::RpmPayloadEntry::Stripped(index) => Some(*index as usize),
+                    payload::RpmPayloadEntry::Cpio(cpio) => {
+                        // names in the archive are the file paths prefixed with "."
+                        // (source packages store the bare file name)
+                        let name = cpio.name();
+                        let names_entry = |e: &FileEntry| {
+                            e.path.as_os_str() == name.strip_prefix('.').unwrap_or(name)
+                                || e.path.as_os_str() == name
+                        };
+                        if self.file_entries.get(position).is_some_and(names_entry) {
+                            Some(position)
+                        } else {
+                            self.file_entries.iter().position(names_entry)
+                        }
+                    }
+                };
+                // @todo: probably safe to hand out a reference instead of cloning, just a bit more painful
+                let file_entry = match index.and_then(|i| self.file_entries.get(i)) {
+                    Some(file_entry) => file_entry.clone(),
+                    None => {
+                        return Some(Err(Error::Io(io::Error::new(
+                            io::ErrorKind::InvalidData,
+                            "archive entry is not listed in the package header",
+                        ))));
+                    }
+                };
 
                 let mut content = Vec::new();
 
